@@ -49,7 +49,9 @@ func (f Child) remove(value any) (out any, changed bool) {
 			delete(tv, key)
 		}
 	case Keyed:
-		tv.RemoveValueForKey(key)
+		if _, changed = tv.ValueForKey(key); changed {
+			tv.RemoveValueForKey(key)
+		}
 	default:
 		if rt := reflect.TypeOf(value); rt != nil {
 			// Can't remove a field from a struct so only a map can be modified.
